@@ -26,6 +26,8 @@ from .values import (
     NINF,
     PI,
     SIN_FN,
+    SINH_FN,
+    COSH_FN,
     SQRT_FN,
     Inf,
     Opaque,
@@ -496,6 +498,18 @@ def _sin(x):
     return ufunc_real(SIN_FN, x)
 
 
+def _sinh(x):
+    if not is_sym(x) and x == 0:
+        return Fraction(0)
+    return ufunc_real(SINH_FN, x)
+
+
+def _cosh(x):
+    if not is_sym(x) and x == 0:
+        return Fraction(1)
+    return ufunc_real(COSH_FN, x)
+
+
 def _cos(x):
     if not is_sym(x) and x == 0:
         return Fraction(1)
@@ -813,7 +827,7 @@ def make_numpy(interp):
         "prod": np_prod, "sum": _np_sum(interp), "dot": np_dot, "broadcast_to": np_broadcast_to,
         "moveaxis": np_moveaxis, "atleast_1d": np_atleast_1d, "linspace": np_linspace, "diff": np_diff,
         "any": np_any, "all": np_all, "isfinite": np_isfinite, "isinf": np_isinf, "isnan": np_isnan,
-        "sqrt": _lift1(_sqrt, "sqrt"), "sin": _lift1(_sin, "sin"), "cos": _lift1(_cos, "cos"),
+        "sqrt": _lift1(_sqrt, "sqrt"), "sin": _lift1(_sin, "sin"), "cos": _lift1(_cos, "cos"), "sinh": _lift1(_sinh, "sinh"), "cosh": _lift1(_cosh, "cosh"),
         "exp": _lift1(lambda x: ufunc_real(EXP_FN, x), "exp"), "log": _lift1(lambda x: ufunc_real(LOG_FN, x), "log"),
         "abs": _lift1(sabs, "abs"), "absolute": _lift1(sabs, "abs"), "fabs": _lift1(sabs, "abs"),
         "arctan2": _lift2(lambda y, x: ufunc_real(ARCTAN2_FN, y, x), "arctan2"),
